@@ -70,6 +70,16 @@ macro_rules! w_giant {
     };
 }
 
+/// Dense small widths (cheap properties only, few cases each): every width from 9 to 72 - every
+/// residue mod 64 on both sides of the one-limb / two-limb boundary - and every whole-byte width up
+/// to 320 that the standard grid lacks (24, 48, 56, 72, 80, ... 312: whole bytes but not whole limbs).
+#[macro_export]
+macro_rules! w_dense {
+    ($m:ident ! ( $($pre:tt)* )) => {
+        $m!($($pre)* [9, 10, 11, 12, 13, 14, 15, 17, 18, 19, 20, 21, 22, 23, 24, 25, 26, 27, 28, 29, 30, 33, 34, 35, 36, 37, 38, 39, 41, 42, 43, 44, 45, 46, 47, 48, 49, 50, 51, 52, 53, 54, 55, 56, 57, 58, 59, 61, 62, 66, 67, 68, 69, 70, 71, 72, 80, 88, 104, 112, 120, 136, 144, 152, 168, 176, 184, 208, 216, 224, 232, 240, 248, 264, 272, 280, 288, 296, 304, 312])
+    };
+}
+
 /// A reduced grid for expensive-to-compile or expensive-to-run rules.
 #[macro_export]
 macro_rules! w_mid {
